@@ -134,6 +134,12 @@ func (s *packetManager) workerChan(runWorker func(chan orderedRequest),
 				// wait for reads/writes to finish when file is closed
 				// incomingPacket() call must occur after this
 				s.working.Wait()
+				s.incomingPacket(pkt)
+				cmdChan <- pkt
+				// and wait for the close itself before dispatching what follows it:
+				// a read or write sent after the close must find the handle gone
+				s.working.Wait()
+				continue
 			}
 			s.incomingPacket(pkt)
 			// all non-RW use sequential cmdChan
